@@ -83,8 +83,8 @@ func runDeadlinePair(c DCase, w, rounds int, stop *atomic.Bool) pbt.Outcome {
 					runtime.Gosched()
 				}
 			}
-			// the peer's own operation gives up 3ms after the deadline: by then the call under test has long returned
-			tm := time.NewTimer(3 * time.Millisecond)
+			// the peer's own operation gives up 1.5ms after the deadline: by then the call under test has long returned
+			tm := time.NewTimer(1500 * time.Microsecond)
 			defer tm.Stop()
 			if sending {
 				select {
@@ -151,11 +151,11 @@ func runDeadlinePair(c DCase, w, rounds int, stop *atomic.Bool) pbt.Outcome {
 
 var specDeadline = pbt.Register(&pbt.Spec[DCase]{
 	Property: "C19", Name: "C19.deadline",
-	Rule: "E5: 2000..8000 rounds per case (spread over 1, 16 or 64 caller/peer pairs running at the same time, each on its own channel) of SendTimeout / SendContext / RecvTimeout / RecvContext on an unbuffered channel with a limit of 60..400 us whose peer (spinning) acts at the deadline -10..+200 us (timers fire late by tens of microseconds); either outcome is allowed, " +
+	Rule: "E5: 1000..4000 rounds per case (spread over 1, 16 or 64 caller/peer pairs running at the same time, each on its own channel) of SendTimeout / SendContext / RecvTimeout / RecvContext on an unbuffered channel with a limit of 60..400 us whose peer (spinning) acts at the deadline -10..+200 us (timers fire late by tens of microseconds); either outcome is allowed, " +
 		"conservation must hold in both (reported true <=> the other side saw the hand-over, with the right value; false => zero value); non-trivial = both outcomes occurred within the case",
 	Gen: func(t *rapid.T) DCase {
 		return DCase{Fn: rapid.SampledFrom([]string{"SendTimeout", "SendTimeout", "SendContext", "RecvTimeout", "RecvContext"}).Draw(t, "fn"),
-			DUs: rapid.SampledFrom([]int{60, 150, 400}).Draw(t, "d"), Rounds: rapid.SampledFrom([]int{2000, 8000}).Draw(t, "rounds"), Procs: rapid.SampledFrom([]int{2, 4, 16}).Draw(t, "procs"),
+			DUs: rapid.SampledFrom([]int{60, 150, 400}).Draw(t, "d"), Rounds: rapid.SampledFrom([]int{1000, 4000}).Draw(t, "rounds"), Procs: rapid.SampledFrom([]int{2, 4, 16}).Draw(t, "procs"),
 			Pairs: rapid.SampledFrom([]int{1, 16, 64, 64}).Draw(t, "pairs")}
 	},
 	Run: RunDeadline, Quick: 12, Thorough: 100, Crashy: true, Retries: 20, CaseCPU: 120e9,
